@@ -13,6 +13,7 @@ use rten_tensor::{NdLayout, SliceItem, Tensor, TensorBase, TensorView, TensorVie
 use serde::{Deserialize, Serialize};
 
 pub const GUARD: usize = 16;
+pub const PAD: usize = 16;
 const DELTA: u32 = 1 << 22;
 const POISON: u32 = 0xF000_0000;
 
@@ -426,6 +427,15 @@ where
     drive_s(it, ops, h, None, &mut f)
 }
 
+/// `drive` for iterators that implement `SplitIterator` (`ItOp::Split` really splits).
+fn drive_sp<I, F>(it: I, ops: &[ItOp], h: &mut Hist, mut f: F) -> R<()>
+where
+    I: DoubleEndedIterator + ExactSizeIterator + rten_base::iter::SplitIterator,
+    F: FnMut(I::Item, &Hist) -> R<()>,
+{
+    drive_s(it, ops, h, split_of::<I>(), &mut f)
+}
+
 fn drive_s<I, F>(mut it: I, ops: &[ItOp], h: &mut Hist, split: Option<SplitFn<I>>, f: &mut F) -> R<()>
 where
     I: DoubleEndedIterator + ExactSizeIterator,
@@ -818,7 +828,7 @@ pub fn run(ctx: &mut Ctx, mut view: TensorViewMut<'_, u32>, mut mv: MView, steps
                 }
                 let mut sink = MutSink::new(ctx, &mv, "iter_mut", path);
                 let mut h = Hist::default();
-                let r = vcore::catch(|| drive(view.iter_mut(), ops, &mut h, |r, h| sink.elem(r, h)));
+                let r = vcore::catch(|| drive_sp(view.iter_mut(), ops, &mut h, |r, h| sink.elem(r, h)));
                 match r {
                     Ok(r) => r?,
                     Err(p) => refused(ctx, "iter_mut", true, p)?,
@@ -834,7 +844,7 @@ pub fn run(ctx: &mut Ctx, mut view: TensorViewMut<'_, u32>, mut mv: MView, steps
                 let mut sink = MutSink::new(ctx, &mv, "lanes_mut", path);
                 let mut h = Hist::default();
                 let r = vcore::catch(|| {
-                    drive(view.lanes_mut(d), ops, &mut h, |lane, h| {
+                    drive_sp(view.lanes_mut(d), ops, &mut h, |lane, h| {
                         let mut lh = Hist::default();
                         let hh = *h;
                         drive(lane, lane_ops, &mut lh, |r, _| sink.elem(r, &hh))
@@ -857,7 +867,7 @@ pub fn run(ctx: &mut Ctx, mut view: TensorViewMut<'_, u32>, mut mv: MView, steps
                 }
                 let mut sink = MutSink::new(ctx, &mv, "inner_iter_mut", path);
                 let mut h = Hist::default();
-                let r = vcore::catch(|| drive(view.inner_iter_dyn_mut(k), ops, &mut h, |mut item, h| sink.view(&mut item, h)));
+                let r = vcore::catch(|| drive_sp(view.inner_iter_dyn_mut(k), ops, &mut h, |mut item, h| sink.view(&mut item, h)));
                 match r {
                     Ok(r) => r?,
                     Err(p) => refused(ctx, "inner_iter_mut", valid, p)?,
@@ -868,7 +878,7 @@ pub fn run(ctx: &mut Ctx, mut view: TensorViewMut<'_, u32>, mut mv: MView, steps
                 let (d, ok) = axis_sel(*dim, nd);
                 let mut sink = MutSink::new(ctx, &mv, "axis_iter_mut", "index");
                 let mut h = Hist::default();
-                let r = vcore::catch(|| drive(view.axis_iter_mut(d), ops, &mut h, |mut item, h| sink.view(&mut item, h)));
+                let r = vcore::catch(|| drive_sp(view.axis_iter_mut(d), ops, &mut h, |mut item, h| sink.view(&mut item, h)));
                 match r {
                     Ok(r) => r?,
                     // refuses views with any zero stride (conservative is_broadcast test): documented
@@ -881,7 +891,7 @@ pub fn run(ctx: &mut Ctx, mut view: TensorViewMut<'_, u32>, mut mv: MView, steps
                 let c = (*chunk % 5) as usize;
                 let mut sink = MutSink::new(ctx, &mv, "axis_chunks_mut", "split");
                 let mut h = Hist::default();
-                let r = vcore::catch(|| drive(view.axis_chunks_mut(d, c), ops, &mut h, |mut item, h| sink.view(&mut item, h)));
+                let r = vcore::catch(|| drive_sp(view.axis_chunks_mut(d, c), ops, &mut h, |mut item, h| sink.view(&mut item, h)));
                 match r {
                     Ok(r) => r?,
                     Err(p) => refused(ctx, "axis_chunks_mut", ok && c > 0 && !mv.strides.contains(&0), p)?,
@@ -1024,6 +1034,194 @@ fn check_elem_addr(ctx: &mut Ctx, mv: &MView, inset: &[bool], op: &str, idx: &[u
     }
 }
 
+
+// ---------------------------------------------------------------------------
+// get_array / set_array / to_array / assign_array
+// ---------------------------------------------------------------------------
+
+struct ArrayPlan {
+    base: Vec<usize>,
+    dim: usize,
+    m: usize,
+    /// the request is valid for the view's shape
+    in_bounds: bool,
+    /// buffer positions of the M addressed elements (computed from the raw
+    /// request, valid or not), when all of them lie inside the root storage
+    pos: Option<Vec<usize>>,
+}
+
+/// Decide *before calling* where the M accesses of an array request would land.
+fn plan_array(ctx: &Ctx, mv: &MView, m: u8, dim: u8, at: u8, base_spec: &[u8]) -> ArrayPlan {
+    let n = mv.shape.len();
+    let m = (m % 4) as usize + 1;
+    let (d, okd) = axis_sel(dim, n);
+    let mut base = Vec::with_capacity(n);
+    let mut ok = okd;
+    for k in 0..n {
+        let len = mv.shape[k];
+        if okd && k == d {
+            let b = match at {
+                0 => 0i128,
+                1 => len as i128 - m as i128,
+                2 => len as i128 - m as i128 + 1,
+                3 => len as i128 - m as i128 + 2,
+                _ => {
+                    if len == 0 {
+                        0
+                    } else {
+                        sel(at, len) as i128
+                    }
+                }
+            }
+            .max(0) as usize;
+            base.push(b);
+            ok &= b + m <= len;
+        } else {
+            let (i, v) = idx_sel(base_spec.get(k).copied().unwrap_or(0), len);
+            ok &= v;
+            base.push(i);
+        }
+    }
+    let pos = if okd {
+        let start = exact::offset(&base, &mv.strides).unwrap_or(u128::MAX);
+        let mut v = Vec::with_capacity(m);
+        for i in 0..m as u128 {
+            let o = start.saturating_add(i.saturating_mul(mv.strides[d] as u128));
+            let p = (mv.base as u128).saturating_add(o);
+            if p >= ctx.region.1 as u128 {
+                v.clear();
+                break;
+            }
+            v.push(p as usize);
+        }
+        (v.len() == m).then_some(v)
+    } else {
+        // `base[dim]` on a fixed-size array panics before anything is accessed
+        Some(Vec::new())
+    };
+    ArrayPlan { base, dim: d, m, in_bounds: ok, pos }
+}
+
+/// Judge the outcome of a get-style request.
+fn judge_get(ctx: &mut Ctx, op: &'static str, plan: &ArrayPlan, got: Result<Vec<u32>, vcore::PanicInfo>) -> R<()> {
+    match got {
+        Ok(vals) => {
+            if !plan.in_bounds {
+                return fail(
+                    format!("array-accepts-out-of-range:{op}"),
+                    format!("{op}::<{}>(base {:?}, dim {}) returned {vals:?} although the request leaves the shape; trace {:?}", plan.m, plan.base, plan.dim, ctx.trace),
+                );
+            }
+            let pos = plan.pos.as_ref().unwrap();
+            for (i, v) in vals.iter().enumerate() {
+                if !ctx.expect[pos[i]].matches(*v) {
+                    return fail(
+                        format!("wrong-element:{op}"),
+                        format!("{op}::<{}>(base {:?}, dim {}) element {i} is {v:#x}; buffer position {} holds {:?}; trace {:?}", plan.m, plan.base, plan.dim, pos[i], ctx.expect[pos[i]], ctx.trace),
+                    );
+                }
+            }
+            ctx.label("array-access");
+            Ok(())
+        }
+        Err(p) => {
+            if !plan.in_bounds {
+                ctx.label("array-out-of-range-refused");
+            }
+            refused(ctx, op, plan.in_bounds, p)
+        }
+    }
+}
+
+fn judge_set(ctx: &mut Ctx, op: &'static str, plan: &ArrayPlan, vals: &[u32], res: Result<(), vcore::PanicInfo>) -> R<()> {
+    match res {
+        Ok(()) => {
+            if !plan.in_bounds {
+                return fail(
+                    format!("array-accepts-out-of-range:{op}"),
+                    format!("{op}::<{}>(base {:?}, dim {}) wrote although the request leaves the shape; trace {:?}", plan.m, plan.base, plan.dim, ctx.trace),
+                );
+            }
+            let pos = plan.pos.as_ref().unwrap();
+            for (i, &p) in pos.iter().enumerate() {
+                ctx.expect[p] = Exp::Val(vals[i]);
+            }
+            ctx.mutated(op);
+            ctx.label("array-access");
+            Ok(())
+        }
+        Err(p) => refused(ctx, op, plan.in_bounds, p),
+    }
+}
+
+macro_rules! with_m {
+    ($m:expr, $M:ident, $body:expr) => {
+        match $m {
+            1 => { const $M: usize = 1; $body }
+            2 => { const $M: usize = 2; $body }
+            3 => { const $M: usize = 3; $body }
+            _ => { const $M: usize = 4; $body }
+        }
+    };
+}
+
+fn array_nd<const N: usize>(ctx: &mut Ctx, view: &mut TensorViewMut<'_, u32>, mv: &MView, write: bool, m: u8, dim: u8, at: u8, base: &[u8]) -> R<()> {
+    let plan = plan_array(ctx, mv, m, dim, at, base);
+    if plan.pos.is_none() {
+        // a broken bounds check would make rten touch memory outside the root storage: do not call
+        ctx.label("array-probe-skipped(would leave the storage)");
+        return Ok(());
+    }
+    let arr: [usize; N] = plan.base.as_slice().try_into().unwrap();
+    let d = plan.dim;
+    if write {
+        let vals: Vec<u32> = (0..plan.m).map(|_| ctx.fresh()).collect();
+        let res = with_m!(plan.m, M, {
+            let a: [u32; M] = vals.as_slice().try_into().unwrap();
+            vcore::catch(|| view.nd_view_mut::<N>().set_array::<M>(arr, d, a))
+        });
+        judge_set(ctx, "set_array", &plan, &vals, res)
+    } else {
+        let got = with_m!(plan.m, M, vcore::catch(|| view.nd_view_mut::<N>().get_array::<M>(arr, d).to_vec()));
+        judge_get(ctx, "get_array", &plan, got)
+    }
+}
+
+/// rank 1: to_array / assign_array (== get_array([0], 0) / set_array([0], 0, ..)).
+fn array_whole(ctx: &mut Ctx, view: &mut TensorViewMut<'_, u32>, mv: &MView, write: bool, m: u8) -> R<()> {
+    let plan = plan_array(ctx, mv, m, 0, 0, &[]);
+    if plan.pos.is_none() {
+        ctx.label("array-probe-skipped(would leave the storage)");
+        return Ok(());
+    }
+    if plan.in_bounds && mv.shape[0] != plan.m {
+        ctx.label("to_array-accepts-longer-vector(doc says panic; memory safe)");
+    }
+    if write {
+        let vals: Vec<u32> = (0..plan.m).map(|_| ctx.fresh()).collect();
+        let res = with_m!(plan.m, M, {
+            let a: [u32; M] = vals.as_slice().try_into().unwrap();
+            vcore::catch(|| view.nd_view_mut::<1>().assign_array::<M>(a))
+        });
+        judge_set(ctx, "assign_array", &plan, &vals, res)
+    } else {
+        let got = with_m!(plan.m, M, vcore::catch(|| view.nd_view_mut::<1>().to_array::<M>().to_vec()));
+        judge_get(ctx, "to_array", &plan, got)
+    }
+}
+
+fn read_array<const N: usize>(ctx: &mut Ctx, v: &TensorView<'_, u32>, mv: &MView, whole: bool, m: u8, dim: u8, at: u8, base: &[u8]) -> R<()> {
+    let plan = if whole && N == 1 { plan_array(ctx, mv, m, 0, 0, &[]) } else { plan_array(ctx, mv, m, dim, at, base) };
+    if plan.pos.is_none() {
+        ctx.label("array-probe-skipped(would leave the storage)");
+        return Ok(());
+    }
+    let arr: [usize; N] = plan.base.as_slice().try_into().unwrap();
+    let d = plan.dim;
+    let got = with_m!(plan.m, M, vcore::catch(|| v.nd_view::<N>().get_array::<M>(arr, d).to_vec()));
+    judge_get(ctx, "get_array", &plan, got)
+}
+
 // ---------------------------------------------------------------------------
 // static-rank operations
 // ---------------------------------------------------------------------------
@@ -1057,10 +1255,10 @@ where
             let r = vcore::catch(|| {
                 let mut ndv = view.nd_view_mut::<N>();
                 match k {
-                    0 => drive(ndv.inner_iter_mut::<0>(), ops, &mut h, |mut it, h| sink.view(&mut it, h)),
-                    1 => drive(ndv.inner_iter_mut::<1>(), ops, &mut h, |mut it, h| sink.view(&mut it, h)),
-                    2 => drive(ndv.inner_iter_mut::<2>(), ops, &mut h, |mut it, h| sink.view(&mut it, h)),
-                    _ => drive(ndv.inner_iter_mut::<3>(), ops, &mut h, |mut it, h| sink.view(&mut it, h)),
+                    0 => drive_sp(ndv.inner_iter_mut::<0>(), ops, &mut h, |mut it, h| sink.view(&mut it, h)),
+                    1 => drive_sp(ndv.inner_iter_mut::<1>(), ops, &mut h, |mut it, h| sink.view(&mut it, h)),
+                    2 => drive_sp(ndv.inner_iter_mut::<2>(), ops, &mut h, |mut it, h| sink.view(&mut it, h)),
+                    _ => drive_sp(ndv.inner_iter_mut::<3>(), ops, &mut h, |mut it, h| sink.view(&mut it, h)),
                 }
             });
             match r {
@@ -1074,7 +1272,7 @@ where
             let mut h = Hist::default();
             let r = vcore::catch(|| {
                 let mut ndv = view.nd_view_mut::<N>();
-                drive(ndv.axis_iter_mut(d), ops, &mut h, |mut it, h| sink.view(&mut it, h))
+                drive_sp(ndv.axis_iter_mut(d), ops, &mut h, |mut it, h| sink.view(&mut it, h))
             });
             match r {
                 Ok(r) => r,
@@ -1091,7 +1289,7 @@ where
             let mut h = Hist::default();
             let r = vcore::catch(|| {
                 let mut ndv = view.nd_view_mut::<N>();
-                drive(ndv.lanes_mut(d), ops, &mut h, |lane, h| {
+                drive_sp(ndv.lanes_mut(d), ops, &mut h, |lane, h| {
                     let mut lh = Hist::default();
                     let hh = *h;
                     drive(lane, lane_ops, &mut lh, |r, _| sink.elem(r, &hh))
@@ -1109,7 +1307,7 @@ where
             let mut h = Hist::default();
             let r = vcore::catch(|| {
                 let mut ndv = view.nd_view_mut::<N>();
-                drive(ndv.axis_chunks_mut(d, c), ops, &mut h, |mut it, h| sink.view(&mut it, h))
+                drive_sp(ndv.axis_chunks_mut(d, c), ops, &mut h, |mut it, h| sink.view(&mut it, h))
             });
             match r {
                 Ok(r) => r,
@@ -1180,6 +1378,13 @@ where
                 return Ok(());
             }
             slice2(ctx, view, mv, *form, *i, *j, *start, *len)
+        }
+        NdOp::Array { write, whole, m, dim, at, base } => {
+            if *whole && N == 1 {
+                array_whole(ctx, view, mv, *write, *m)
+            } else {
+                array_nd::<N>(ctx, view, mv, *write, *m, *dim, *at, base)
+            }
         }
     }
 }
@@ -1325,26 +1530,26 @@ fn read_prog<'a>(ctx: &mut Ctx, mut v: TensorView<'a, u32>, mv0: &MView, pre: &[
     }
     let mut h = Hist::default();
     match obs {
-        RObs::Iter(ops) => fin!("iter", valid_all, drive(v.iter(), ops, &mut h, |r, _| sink.elem(r))),
+        RObs::Iter(ops) => fin!("iter", valid_all, drive_sp(v.iter(), ops, &mut h, |r, _| sink.elem(r))),
         RObs::Lanes { dim, ops, lane_ops } => {
             let (d, ok) = axis_sel(*dim, nd);
-            fin!("lanes", ok, drive(v.lanes(d), ops, &mut h, |lane, _| {
+            fin!("lanes", ok, drive_sp(v.lanes(d), ops, &mut h, |lane, _| {
                 let mut lh = Hist::default();
                 drive(lane, lane_ops, &mut lh, |r, _| sink.elem(r))
             }))
         }
         RObs::InnerIter { n, ops } => {
             let k = if *n >= 250 { nd + 1 } else { sel(*n, nd + 1) };
-            fin!("inner_iter", k <= nd, drive(v.inner_iter_dyn(k), ops, &mut h, |item, _| sink.view(&item)))
+            fin!("inner_iter", k <= nd, drive_sp(v.inner_iter_dyn(k), ops, &mut h, |item, _| sink.view(&item)))
         }
         RObs::AxisIter { dim, ops } => {
             let (d, ok) = axis_sel(*dim, nd);
-            fin!("axis_iter", ok, drive(v.axis_iter(d), ops, &mut h, |item, _| sink.view(&item)))
+            fin!("axis_iter", ok, drive_sp(v.axis_iter(d), ops, &mut h, |item, _| sink.view(&item)))
         }
         RObs::AxisChunks { dim, chunk, ops } => {
             let (d, ok) = axis_sel(*dim, nd);
             let c = (*chunk % 5) as usize;
-            fin!("axis_chunks", ok && c > 0, drive(v.axis_chunks(d, c), ops, &mut h, |item, _| sink.view(&item)))
+            fin!("axis_chunks", ok && c > 0, drive_sp(v.axis_chunks(d, c), ops, &mut h, |item, _| sink.view(&item)))
         }
         RObs::Get(spec) | RObs::Index(spec) => {
             let (idx, valid) = index_vec(spec, &mv.shape);
@@ -1410,6 +1615,71 @@ fn read_prog<'a>(ctx: &mut Ctx, mut v: TensorView<'a, u32>, mv0: &MView, pre: &[
                 None => Ok(()),
             }
         }),
+        RObs::Array { whole, m, dim, at, base } => {
+            drop(sink);
+            match nd {
+                1 => read_array::<1>(ctx, &v, &mv, *whole, *m, *dim, *at, base),
+                2 => read_array::<2>(ctx, &v, &mv, *whole, *m, *dim, *at, base),
+                3 => read_array::<3>(ctx, &v, &mv, *whole, *m, *dim, *at, base),
+                4 => read_array::<4>(ctx, &v, &mv, *whole, *m, *dim, *at, base),
+                _ => Ok(()),
+            }
+        }
+        RObs::SliceCopy(specs) => {
+            // negative steps and out-of-range endpoints are legal for slice_copy
+            let (items, _) = slice_items(specs, &mv.shape);
+            fin!("slice_copy", false, {
+                let out = v.slice_copy(items.as_slice());
+                out.iter().try_for_each(|&x| sink.value(x))
+            })
+        }
+        RObs::InitFrom => fin!("init_from", true, {
+            let out = Tensor::<u32>::uninit(mv.shape.as_slice()).init_from(&v);
+            if out.len() != count {
+                return fail("wrong-len:init_from".into(), format!("init_from produced {} elements for {}", out.len(), count));
+            }
+            out.iter().try_for_each(|&x| sink.value(x))
+        }),
+        RObs::Concat { dim } => {
+            let (d, ok) = axis_sel(*dim, nd);
+            fin!("concat", ok, {
+                match Tensor::<u32>::concat(d, &[v.clone(), v.clone()]) {
+                    Ok(out) => {
+                        if out.len() != 2 * count {
+                            return fail("wrong-len:concat".into(), format!("concat produced {} elements for 2 x {}", out.len(), count));
+                        }
+                        out.iter().try_for_each(|&x| sink.value(x))
+                    }
+                    Err(_) => Ok(()),
+                }
+            })
+        }
+        RObs::ToContiguous => fin!("to_contiguous", true, {
+            let out = v.to_contiguous();
+            out.iter().try_for_each(|&x| sink.value(x))
+        }),
+        RObs::ToShape => fin!("to_shape", true, {
+            let out = v.to_shape([count].as_slice());
+            out.iter().try_for_each(|&x| sink.value(x))
+        }),
+        RObs::ToSlice => fin!("to_slice", true, {
+            let out = v.to_slice();
+            if out.len() != count {
+                return fail("wrong-len:to_slice".into(), format!("to_slice has {} elements, view has {}", out.len(), count));
+            }
+            out.iter().try_for_each(|&x| sink.value(x))
+        }),
+        RObs::Reshaped(k) => {
+            let new_shape: Vec<usize> = match k % 3 {
+                0 => vec![count],
+                1 => vec![1, count, 1],
+                _ => vec![count + 1],
+            };
+            fin!("reshaped", k % 3 != 2, {
+                let out = v.reshaped(new_shape.as_slice());
+                out.iter().try_for_each(|&x| sink.value(x))
+            })
+        }
     }
 }
 
@@ -1426,22 +1696,26 @@ pub struct Outcome {
 /// whole buffer (guards included) with the shadow.
 pub fn execute(prog: &Prog) -> R<Outcome> {
     let d = prog.root.derive();
-    let total = GUARD + d.buf_len + GUARD;
+    // The root storage is PAD elements longer than the layout needs (allowed by
+    // from_data_with_strides): an access slightly past a lane's end stays inside
+    // the storage the root view legitimately borrows, so out-of-range probes of
+    // get_array/set_array can be issued without risking a real out-of-bounds access.
+    let total = GUARD + d.buf_len + PAD + GUARD;
     let mut buf: Vec<u32> = (0..total as u32).collect();
     let init = buf.clone();
     let buf_addr = buf.as_ptr() as usize;
-    let mut ctx = Ctx::new(buf_addr, total, (GUARD + d.offset, GUARD + d.buf_len), &init);
+    let mut ctx = Ctx::new(buf_addr, total, (GUARD + d.offset, GUARD + d.buf_len + PAD), &init);
     for l in &d.labels {
         ctx.label(l);
     }
     {
-        let storage: &mut [u32] = &mut buf[GUARD + d.offset..GUARD + d.buf_len];
+        let storage: &mut [u32] = &mut buf[GUARD + d.offset..GUARD + d.buf_len + PAD];
         let root = match TensorViewMut::<u32>::from_data_with_strides(&d.shape, storage, &d.strides) {
             Ok(r) => r,
             Err(e) => {
                 return fail(
                     "root-rejected".into(),
-                    format!("from_data_with_strides refused the derived layout shape {:?} strides {:?} (storage len {}): {e:?}", d.shape, d.strides, d.buf_len - d.offset),
+                    format!("from_data_with_strides refused the derived layout shape {:?} strides {:?} (storage len {}): {e:?}", d.shape, d.strides, d.buf_len + PAD - d.offset),
                 )
             }
         };
@@ -1453,7 +1727,7 @@ pub fn execute(prog: &Prog) -> R<Outcome> {
         if !exp.matches(got) {
             let mut ops = ctx.mutated.clone();
             ops.sort();
-            let where_ = if i < GUARD || i >= GUARD + d.buf_len { "guard" } else if init[i] == got { "missing-write" } else { "unexpected-write" };
+            let where_ = if i < GUARD || i >= GUARD + d.buf_len + PAD { "guard" } else if i >= GUARD + d.buf_len { "padding" } else if init[i] == got { "missing-write" } else { "unexpected-write" };
             return fail(
                 format!("write-footprint:{where_}:{}", ops.join("+")),
                 format!("buffer position {i} holds {got:#x}, shadow model expects {exp:?} (initial {:#x}); mutating ops {:?}; trace {:?}", init[i], ctx.mutated, ctx.trace),
